@@ -92,7 +92,7 @@ def run(ctx):
                 "complex, huge ints, strings, None; oracle only); every assignment judged by the pull-model oracle; non-trivial = an assignment that "
                 "triggered >= 1 task in a history with >= 2 definitions; distinct by history prefix")
     ctx.scale_if_changed()
-    proof_ok = vlib.standard_proof_part(ctx, "props/C01.v", extra_targets=["run/RunManager.vo", "proofs/TasksSrc.vo", "proofs/TasksSrcData.vo", "proofs/TasksSrcRefresh.vo"], translators=["tasks"])
+    proof_ok = vlib.standard_proof_part(ctx, "props/C01.v", extra_targets=["run/RunManager.vo", "proofs/TasksSrc.vo", "proofs/TasksSrcData.vo", "proofs/TasksSrcRefresh.vo", "proofs/TasksSrcSorting.vo"], translators=["tasks"])
     n = ctx.pick(300, 6000)
     cases = [wide_case(6), wide_case(25), mc.wide_case(ctx.rng, 67), mc.wide_case(ctx.rng, 140)]
     cases += [mc.gen_history(ctx.rng, ["assign", "assign", "assign_flat"][i % 3], nops=ctx.rng.randint(4, 25 if i % 7 else 40)) for i in range(n)]
